@@ -152,7 +152,7 @@ pub fn exec(sc: &Scenario, st: &mut Stats) -> Option<Violation> {
                 }
                 Op::Format { .. } => {
                     what = "Display/Debug";
-                    let l = on(Side::Subject, || node.display().len() + node.debug().len() + node.period().unwrap_or(0) + node.multiplier().map_or(0, |m| m.to_bits() as usize & 1));
+                    let l = on(Side::Subject, || node.display().len() + node.debug().len() + node.format_variants(*count % 4 == 0) + node.period().unwrap_or(0) + node.multiplier().map_or(0, |m| m.to_bits() as usize & 1));
                     digest = fnv_u64(digest, l as u64 & 0);
                     st.situation(kind, &spec.params, phase(*count, window, *was_reset), 10, last_fault, spec.mode, 0);
                 }
